@@ -15,6 +15,9 @@ fn near_limit_vm() -> (VM, u64) {
     vm.heap.alloc_string("ab");
     vm.heap.alloc_string("c");
     vm.manual_heap.alloc(2, 0).unwrap();
+    // one freed slot, so that the next manual allocation recycles it (recycled slots must be charged like fresh ones)
+    let dead = vm.manual_heap.alloc(1, 0).unwrap();
+    vm.manual_heap.free(dead, 0).unwrap();
     let room: u64 = kani::any();
     kani::assume(room <= 48); // at most 6 manual slots can be granted: vec![null; n] stays inside unwind 7
     vm.config.max_heap_bytes = used(&vm) + room;
@@ -40,6 +43,25 @@ vm_harness! {
             Err(e) => assert!(oom(e) && used(&vm) == before && charge > room),
         }
         kani::cover!(r.is_ok() && b[0] >= 0x80, "REQ multi-byte string admitted");
+        kani::cover!(r.is_err(), "REQ refused");
+        std::mem::forget(r);
+        std::mem::forget(vm);
+    }
+}
+
+/// same entry point on a *concrete* multi-byte string (byte size 2, one character) with the headroom symbolic: the admitted/refused
+/// boundary must sit at the byte size (with symbolic bytes a char-counting implementation makes the query itself explode)
+vm_harness! {
+    fn c10_o1_alloc_string_multibyte() {
+        let (mut vm, room) = near_limit_vm();
+        let before = used(&vm);
+        let charge = Heap::estimate_string_size(2) as u64;
+        let r = vm.alloc_string("\u{e9}");
+        match &r {
+            Ok(_) => assert!(used(&vm) == before + charge && used(&vm) <= vm.config.max_heap_bytes && charge <= room),
+            Err(e) => assert!(oom(e) && used(&vm) == before && charge > room),
+        }
+        kani::cover!(r.is_ok(), "REQ admitted");
         kani::cover!(r.is_err(), "REQ refused");
         std::mem::forget(r);
         std::mem::forget(vm);
